@@ -536,8 +536,12 @@ class CoEServer:
                       f"got {toggle}, expected {t['toggle']}")
             return self._abort(t["index"], t["sub"], ABORT_TOGGLE)
         t["toggle"] ^= 1
-        # a segment carries at most mailbox - 6 - 2 - 1 bytes
-        chunk = t["data"][t["pos"]:t["pos"] + self.mbx_in_size - 9]
+        # a segment carries at most mailbox - 6 - 2 - 1 bytes; a server is free to send
+        # less (segment_size: optional callable -> number of bytes for this segment)
+        room = self.mbx_in_size - 9
+        if getattr(self, "segment_size", None) is not None:
+            room = max(1, min(room, self.segment_size(room)))
+        chunk = t["data"][t["pos"]:t["pos"] + room]
         t["pos"] += len(chunk)
         last = t["pos"] == len(t["data"])
         head = toggle << 4 | last
